@@ -405,7 +405,7 @@ func runFsmCase(c *vCtx, idx int64, prop string, oracle fsmOracle, cfg fsmConfig
 func runFsmCaseFaults(c *vCtx, idx int64, prop string, oracle fsmOracle, cfg fsmConfig, evs []fsmEvent, class string, writeFaultPct int) {
 	c.Case(idx, func() interface{} {
 		r := newFsmRun(cfg)
-		r.writeFaultPct, r.faultRNG = writeFaultPct, vNewRNG(uint64(idx), 99)
+		r.writeFaultPct, r.stopFaultPct, r.faultRNG = writeFaultPct, writeFaultPct/2, vNewRNG(uint64(idx), 99)
 		for _, e := range evs {
 			r.step(e)
 		}
@@ -414,7 +414,7 @@ func runFsmCaseFaults(c *vCtx, idx int64, prop string, oracle fsmOracle, cfg fsm
 			"trace":  traceString(r.steps, 80)}
 	}, func() {
 		r := newFsmRun(cfg)
-		r.writeFaultPct, r.faultRNG = writeFaultPct, vNewRNG(uint64(idx), 99)
+		r.writeFaultPct, r.stopFaultPct, r.faultRNG = writeFaultPct, writeFaultPct/2, vNewRNG(uint64(idx), 99)
 		for _, e := range evs {
 			s := r.step(e)
 			if s.Panic != "" {
@@ -427,6 +427,9 @@ func runFsmCaseFaults(c *vCtx, idx int64, prop string, oracle fsmOracle, cfg fsm
 				for _, op := range st.Ops[sinkMotion] {
 					if op.Op == opWrite && op.Err {
 						c.Count("post_trigger_write_faults", 1)
+					}
+					if op.Op == opStop && op.Err {
+						c.Count("stop_faults", 1)
 					}
 				}
 			}
